@@ -302,6 +302,10 @@ def run(ctx: Ctx):
     ok = ctx.proof_stage("Properties/C13.v")
     if not ok:
         ctx.violation("theorems of Properties/C13.v no longer check", {"broken": "Properties/C13.v"}, found_input=False)
+    # identifier-handling layer (Model/Idents.v, Properties/C13_idents.v): theorems, translator
+    # obligations and correspondence for the string-level functions that look at column names
+    from harness import c13_idents
+    c13_idents.run_idents(ctx)
     nsc = 14 if ctx.quick else 120
     npres = 5 if ctx.quick else 8
     terms, meta = [], []
